@@ -1,4 +1,4 @@
 INIT GenInit
 NEXT GenNext
-CONSTANTS MaxCells = 10000 MaxKLCells = 1500 Thin = 13
+CONSTANTS MaxCells = 10000 MaxKLCells = 1500 Thin = 19
 CHECK_DEADLOCK FALSE
